@@ -509,17 +509,32 @@ def rename_def(d, neutral=False):
     return td, m
 
 def name_map(info_a, info_b, hook_map):
-    """every derived name of definition a mapped to the corresponding one of its twin b (same positions)"""
-    m = dict(hook_map)
+    """every derived name of definition a mapped to the corresponding one of its twin b (same positions);
+    None when the textual mapping would be ambiguous (a name that coincides with another name's derived
+    form, e.g. a lower-case state name and its own snake_case form under a permutation): such a twin is not
+    compared — the comparison is textual and would report a difference that is the harness's"""
+    m = {}
+    ok = [True]
+    def put(k, v):
+        if k in m and m[k] != v:
+            ok[0] = False
+        m[k] = v
+    for k, v in hook_map.items():
+        put(k, v)
     for x, y in zip(info_a['states'], info_b['states']):
-        m[x['name']] = y['name']; m[x['snake']] = y['snake']
-    for x, y in zip(info_a['superstates'], info_b['superstates']):
-        pass
+        put(x['name'], y['name']); put(x['snake'], y['snake'])
     for x, y in zip(info_a['storage'], info_b['storage']):
-        m[x['state']] = y['state']; m[x['field']] = y['field']; m['set_' + x['snake'] + '_data'] = 'set_' + y['snake'] + '_data'
+        put(x['state'], y['state']); put(x['field'], y['field']); put('set_' + x['snake'] + '_data', 'set_' + y['snake'] + '_data')
     for x, y in zip(info_a['events'], info_b['events']):
-        m[x['name']] = y['name']; m[x['pascal']] = y['pascal']; m[x['method']] = y['method']
-    return m
+        put(x['name'], y['name']); put(x['pascal'], y['pascal']); put(x['method'], y['method'])
+    if len(set(m.values())) != len(m):
+        # not injective: mapping back would be ambiguous too (unless two keys are mapped alike on purpose)
+        inv = {}
+        for k, v in m.items():
+            if v in inv and inv[v] != k and not (m.get(inv[v]) == v and m.get(k) == v and k.lower() == inv[v].lower()):
+                ok[0] = False
+            inv[v] = k
+    return m if ok[0] else None
 
 _IDENT = None
 def map_tokens(line, m):
@@ -760,6 +775,9 @@ def run(tier, seed, work, repo, suspects=None, strict_suspects=None):
             base = by_id[t['twin_of']]
             if t['twin_kind'] == 'ren':
                 t['nm'] = name_map(base['info'], t['info'], t['hook_map'])
+                if t['nm'] is None:
+                    result['twins_skipped_ambiguous_names'] = result.get('twins_skipped_ambiguous_names', 0) + 1
+                    continue
                 t['inv'] = {v: k for k, v in t['nm'].items()}
             for sc in scns:
                 if sc['x'] is not base or sc['family'] == 'abandon':
